@@ -4,9 +4,24 @@ package props
 
 import (
 	"reflect"
+	"unsafe"
 
 	"github.com/osteele/liquid"
 )
+
+// readReflectValue reads a (possibly unexported) struct field of type reflect.Value.
+func readReflectValue(f reflect.Value) (reflect.Value, bool) {
+	if !f.CanAddr() {
+		c := reflect.New(f.Type()).Elem()
+		c.Set(f)
+		f = c
+	}
+	p := (*reflect.Value)(unsafe.Pointer(f.UnsafeAddr()))
+	if !p.IsValid() {
+		return reflect.Value{}, false
+	}
+	return *p, true
+}
 
 // With the overlay of tools/overlay.sh the real Go signature of every registered filter is the arity oracle.
 func init() {
@@ -16,6 +31,37 @@ func init() {
 			return 0, false, false
 		}
 		t := reflect.TypeOf(fn)
+		if t.Kind() != reflect.Func {
+			// the registry no longer stores bare functions (e.g. a wrapper struct): look one level
+			// down for the function; otherwise fall back to the table
+			v := reflect.ValueOf(fn)
+			for v.Kind() == reflect.Ptr || v.Kind() == reflect.Interface {
+				if v.IsNil() {
+					return 0, false, false
+				}
+				v = v.Elem()
+			}
+			found := false
+			if v.Kind() == reflect.Struct {
+				for i := 0; i < v.NumField() && !found; i++ {
+					f := v.Field(i)
+					for f.Kind() == reflect.Interface && !f.IsNil() {
+						f = f.Elem()
+					}
+					if f.Kind() == reflect.Func {
+						t, found = f.Type(), true
+					} else if f.Type() == reflect.TypeOf(reflect.Value{}) {
+						// a stored reflect.Value of the function
+						if rv, ok := readReflectValue(f); ok && rv.Kind() == reflect.Func {
+							t, found = rv.Type(), true
+						}
+					}
+				}
+			}
+			if !found {
+				return 0, false, false
+			}
+		}
 		return t.NumIn() - 1, t.IsVariadic(), true
 	}
 }
